@@ -122,7 +122,7 @@ def masterOp (r : Res MasterPlaylist) (rt : Bool) : String :=
   | .panic => "panic"
   | .ok p =>
     let t := p.show
-    let line := "ok " ++ Obs.master p ++ " T:" ++ hx t ++ " V:" ++ toString p.requiredVersion ++ " " ++ Obs.aField p
+    let line := "ok " ++ Obs.master p ++ " T:" ++ hx t ++ " V:" ++ toString p.requiredVersion ++ " " ++ Obs.aField p ++ " " ++ Obs.sField p
     if !rt then line else
     match parseMaster t with
     | .ok p2 =>
